@@ -443,10 +443,14 @@ impl VersionSet {
         self.curr_wal_number = maybe_curr_wal_num.unwrap();
         self.prev_wal_number = maybe_prev_wal_num;
 
+        // A manifest that ends in a partially written record cannot be appended to because records
+        // appended after the torn bytes would be unreadable
+        let is_manifest_complete = manifest_reader.is_fully_consumed().unwrap_or(false);
+
         // Drop the manifest reader (and therefore the underlying file handle) before attempting to
         // reuse the existing manifest file
         drop(manifest_reader);
-        if self.maybe_reuse_manifest(&manifest_file_path) {
+        if is_manifest_complete && self.maybe_reuse_manifest(&manifest_file_path) {
             return Ok(true);
         }
 
